@@ -2,7 +2,8 @@
 From Coq Require Import List Bool Lia Arith ZArith.
 From Emmet Require Import lib.Base model.MarkupTokenizer model.MarkupParser model.MarkupConvert model.MarkupResolve
      model.OutStream model.FormatHtml model.FormatIndent model.MarkupExpand gen.GenMarkupSnippets
-     proofs.MarkupTokenizerProofs proofs.SafeTokenizer proofs.SafeParser proofs.SafeConvert proofs.SafeResolve.
+     proofs.MarkupTokenizerProofs proofs.SafeTokenizer proofs.SafeParser proofs.SafeConvert proofs.SafeResolve
+     proofs.BemProofs.
 Import ListNotations.
 
 (* tokenize + parse: the only failures are the two parse errors, position inside the input *)
@@ -58,10 +59,13 @@ Proof.
   intros cfg s Hcfg Hwf. unfold markup_parse.
   pose proof (parse_abbr_safe (mc_jsx cfg) (mkCenv (mc_text cfg) (mc_variables cfg) (mc_href cfg)) (mc_max_repeat cfg) s Hwf) as H.
   destruct (parse_abbr _ _ _ s) as [tree|k p| |]; try exact H.
-  cbn [bind]. destruct (resolve_safe cfg tree Hcfg) as [r Er]. rewrite Er. exact I.
+  cbn [bind]. destruct (resolve_safe cfg tree Hcfg) as [r Er]. rewrite Er. cbn [bind].
+  (* the transform pass, BEM addon included, never fails: BemProofs.transform_list_ok *)
+  destruct (transform_list_ok cfg r) as [t Et]. rewrite Et. exact I.
 Qed.
 
-(* expand(): the formatter (html / haml / pug / slim, comments, JSX attribute renaming, context) is a
+(* expand(): the transform pass is total (BemProofs.transform_list_ok, inside markup_parse_safe); the formatter
+   (html / haml / pug / slim, comments, JSX attribute renaming, context) is a
    total function by construction (`stringify_markup` returns a plain state, no `res`) *)
 Theorem expand_safe_under_wf : forall x s, wf_cfg (xc_m x) -> abbr_wf (mc_jsx (xc_m x)) s ->
   safe_outcome (length s) (expand_markup_str x s).
